@@ -4,7 +4,9 @@ package main
 // lock package; after every op the number of entries in the per-key queue map is read through
 // the verif-only accessor lock.VerifQueueCount.
 //
-// ops:   case N | lock K long|short | lockh K (stopped between getQueue and enqueue) | go S | unlock S | expire S | cancel S | count
+// ops:   case N | lock K long|short|zero|neg|min | lockc K (context already cancelled when the caller reaches its select:
+//        reply names the branch the runtime took) | lockh K (stopped between getQueue and enqueue) | go S | unlock S | expire S | cancel S | count
+//        residual=<callers still queued although their Lock call returned an error>
 // reply: <event> entries=<map entries> queued=<callers queued over all keys of the case> holders=<max over keys of callers that acquired and did not release>
 
 import (
@@ -33,7 +35,11 @@ func genC28(rng *rand.Rand, tier string, w *bufio.Writer) {
 	// a caller that holds a pointer to a queue while the queue is emptied (pruning: it must retry on the key's new queue)
 	fmt.Fprintln(w, "case 2\nlock 7 long\nlockh 7\nunlock 1\ncount\ngo 2\ncount\nlock 7 long\nunlock 2\nunlock 3\ncount")
 	fmt.Fprintln(w, "case 1\nlock 5 short\nlock 5 long\nlock 6 long\nexpire 1\ncancel 2\nunlock 2\nunlock 3\ncount\nlock 5 long\nunlock 4\ncount")
-	for c := 3; c < cases; c++ {
+	// pre-cancelled contexts on free keys (either select branch must leave no residue: the keys must
+	// be lockable afterwards and the map must drain); TTLs ≤ 0
+	fmt.Fprintln(w, "case 3\nlockc 1\nlockc 1\nlockc 2\nlockc 1\nlockc 2\nlockc 3\nlock 1 long\nlock 2 long\nunlock 1\nunlock 2\nunlock 3\nunlock 4\nunlock 5\nunlock 6\nunlock 7\nunlock 8\ncount")
+	fmt.Fprintln(w, "case 4\nlock 1 zero\nlock 2 neg\nlock 3 min\nlock 1 long\nexpire 1\nexpire 2\nexpire 3\nunlock 4\ncount")
+	for c := 5; c < cases; c++ {
 		fmt.Fprintf(w, "case %d\n", c)
 		n := 4 + rng.Intn(maxLen)
 		nkeys := 1 + rng.Intn(12)
@@ -54,10 +60,14 @@ func genC28(rng *rand.Rand, tier string, w *bufio.Writer) {
 				ttl := "long"
 				sessions++
 				if rng.Intn(4) == 0 {
-					ttl = "short"
+					ttl = []string{"short", "short", "zero", "neg", "min"}[rng.Intn(5)]
 					short = append(short, sessions)
 				}
 				live = append(live, sessions)
+				if rng.Intn(8) == 0 {
+					fmt.Fprintf(w, "lockc %d\n", rng.Intn(nkeys))
+					break
+				}
 				fmt.Fprintf(w, "lock %d %s\n", rng.Intn(nkeys), ttl)
 			case r < 75 && len(live) > 0:
 				j := rng.Intn(len(live))
@@ -127,7 +137,15 @@ func runC28(in *bufio.Scanner, out *bufio.Writer) {
 				inflight++
 			}
 		}
-		return fmt.Sprintf("entries=%d queued=%d inflight=%d holders=%d", lock.VerifQueueCount(w.lk), queued, inflight, holders)
+		residual := 0
+		seen = map[string]bool{}
+		for _, s := range w.sess {
+			if !seen[s.key] {
+				seen[s.key] = true
+				residual += len(w.residual(s.key))
+			}
+		}
+		return fmt.Sprintf("entries=%d queued=%d inflight=%d holders=%d residual=%d", lock.VerifQueueCount(w.lk), queued, inflight, holders, residual)
 	}
 	get := func(f []string) *c14Sess {
 		if len(f) < 2 {
@@ -160,11 +178,53 @@ func runC28(in *bufio.Scanner, out *bufio.Writer) {
 				break
 			}
 			ttl, short := time.Hour, false
-			if f[2] == "short" {
+			switch f[2] {
+			case "short":
 				ttl, short = 3*time.Millisecond, true
+			case "zero":
+				ttl, short = 0, true
+			case "neg":
+				ttl, short = -time.Millisecond, true
+			case "min":
+				ttl, short = time.Duration(-1<<63), true
 			}
 			s, res := w.startLock(f[1], ttl, short, false)
 			fmt.Fprintf(out, "enq %d %s %s\n", s.n, res, tail())
+		case "lockc":
+			if len(f) < 2 {
+				fmt.Fprintln(out, "bad-op")
+				break
+			}
+			s, res := w.startLock(f[1], time.Hour, false, true)
+			if res == "held" {
+				s.cancelled = true
+				s.cancel()
+				s.held = false
+				w.release(w.holds, s.qid)
+				me := strconv.Itoa(s.n)
+				ev, ok := w.wait(func(e c14Event) bool {
+					return (e.id == s.qid && (e.name == "lock.acq" || e.name == "lock.cancel")) || (e.name == "sess.err" && e.raw == me)
+				})
+				switch {
+				case !ok:
+					res = "unexpected-" + ev.name
+				case ev.name == "lock.acq":
+					s.acquired = true
+					res = "acq"
+				case ev.name == "sess.err":
+					s.gone = true
+					w.returned(s)
+					res = "err"
+				default:
+					s.gone = true
+					res = "cancel"
+					if !w.returned(s) {
+						res = "unexpected-timeout"
+					}
+					res += w.settle(s.key)
+				}
+			}
+			fmt.Fprintf(out, "lockc %d %s %s\n", s.n, res, tail())
 		case "lockh":
 			if len(f) != 2 {
 				fmt.Fprintln(out, "bad-op")
